@@ -53,6 +53,26 @@ func defaultClassify(prop string) func(s *prog.Step, class string) (string, stri
 }
 
 func runPrograms(a lib.Args, res *lib.Result, po progOpts) error {
+	// replay of one recorded failure: only that program of that family, from the recorded seed
+	// (the program text is a function of seed, family and index; server-chosen ids are fed back as in the
+	// original run). Timing-dependent failures may need more than one attempt: three are made.
+	replayIdx, replayReps := -1, 1
+	if in := a.ReplayInput(); in != nil {
+		fam, _ := in["family"].(string)
+		if fam != po.name {
+			return nil
+		}
+		if v, ok := in["program_index"].(float64); ok {
+			replayIdx = int(v)
+		}
+		if v, ok := in["seed"].(float64); ok {
+			a.Seed = int64(v)
+		}
+		replayReps = 3
+		if po.programs <= replayIdx {
+			po.programs = replayIdx + 1
+		}
+	}
 	cfg, err := mustStorage(a, po.name, po.versioning, po.sidecar, func(c *gw.Config) { c.NoOTmp = po.noOTmp })
 	if err != nil {
 		return err
@@ -132,126 +152,132 @@ func runPrograms(a lib.Args, res *lib.Result, po progOpts) error {
 	}
 	r := lib.NewRandStream(a.Seed, po.seedOff)
 	for i := 0; i < po.programs; i++ {
-		g := prog.NewGen(r.Fork())
-		if po.tune != nil {
-			po.tune(g)
+		fork := r.Fork()
+		if replayIdx >= 0 && i != replayIdx {
+			continue
 		}
-		setup := prog.Setup{Versioning: po.versioning, Accounts: prog.DefaultAccts, Filter: filterLine}
-		if hook != nil {
-			hook.Drain(2*time.Millisecond, 50*time.Millisecond)
-		}
-		wipe(cfg.Root)
-		if cfg.VersioningDir != "" {
-			wipe(cfg.VersioningDir)
-		}
-		if cfg.Sidecar != "" {
-			wipe(cfg.Sidecar)
-		}
-		var ops []*prog.Op
-		if po.setupOps != nil {
-			if po.readonly {
-				if err := start(false); err != nil {
-					return err
-				}
+		for rep := 0; rep < replayReps && (rep == 0 || len(res.Failures) == 0); rep++ {
+			g := prog.NewGen(fork.Clone())
+			if po.tune != nil {
+				po.tune(g)
 			}
-			ops = po.setupOps(g)
-		}
-		nSetup := len(ops)
-		var body []*prog.Op
-		if po.gen != nil {
-			body = po.gen(g, i)
-		} else {
-			if !po.readonly {
-				body = g.Prelude()
+			setup := prog.Setup{Versioning: po.versioning, Accounts: prog.DefaultAccts, Filter: filterLine}
+			if hook != nil {
+				hook.Drain(2*time.Millisecond, 50*time.Millisecond)
 			}
-			for k := 1 + g.R.Intn(po.maxOps); k > 0; k-- {
-				body = append(body, g.Op())
+			wipe(cfg.Root)
+			if cfg.VersioningDir != "" {
+				wipe(cfg.VersioningDir)
 			}
-		}
-		var steps []*prog.Step
-		if po.next != nil {
-			steps, err = prog.RunAdaptive(w, a.Driver, setup, func(h []*prog.Step) *prog.Op { return po.next(g, i, h) })
-		} else if po.readonly {
-			var mut []string
-			steps, mut, err = runReadonly(w, a.Driver, cfg, setup, ops, body, start)
-			for _, m := range mut {
-				kind := strings.SplitN(strings.SplitN(m, " ", 3)[1], " ", 2)[0]
-				res.Fail(lib.Failure{Kind: "property", Signature: "readonly-mutation:" + kind, What: "storage changed although the gateway runs with --readonly",
-					Input: map[string]interface{}{"family": po.name, "program_index": i, "seed": a.Seed, "mutation": m}, Impl: m})
+			if cfg.Sidecar != "" {
+				wipe(cfg.Sidecar)
 			}
-		} else if po.restartBeforeLast > 0 {
-			all := append(ops, body...)
-			cut := len(all) - po.restartBeforeLast
-			if cut < 0 {
-				cut = 0
-			}
-			steps, err = prog.RunAdaptive(w, a.Driver, setup, func(h []*prog.Step) *prog.Op {
-				if len(h) >= len(all) {
-					return nil
-				}
-				if len(h) == cut {
-					for _, gwp := range w.Gws {
-						if e := gwp.Restart(); e != nil {
-							panic(e)
-						}
+			var ops []*prog.Op
+			if po.setupOps != nil {
+				if po.readonly {
+					if err := start(false); err != nil {
+						return err
 					}
 				}
-				return all[len(h)]
-			})
-		} else {
-			steps, err = prog.Run(w, a.Driver, setup, append(ops, body...))
-		}
-		if err != nil {
-			return err
-		}
-		nontrivial := false
-		for j, s := range steps {
-			if j >= nSetup && !strings.HasPrefix(s.Impl, "code=NoSuchBucket") {
-				nontrivial = true
+				ops = po.setupOps(g)
 			}
-			res.Histogram["op:"+s.Op.Kind]++
-			c := codeOfLine(s.Impl)
-			if c == "" {
-				c = "ok"
-			}
-			res.Histogram["outcome:"+c]++
-			if strings.HasPrefix(s.Op.Caller, "anon") {
-				res.Histogram["caller:anon"]++
+			nSetup := len(ops)
+			var body []*prog.Op
+			if po.gen != nil {
+				body = po.gen(g, i)
 			} else {
-				res.Histogram["caller:"+s.Op.Caller]++
+				if !po.readonly {
+					body = g.Prelude()
+				}
+				for k := 1 + g.R.Intn(po.maxOps); k > 0; k-- {
+					body = append(body, g.Op())
+				}
 			}
-		}
-		var canon []string
-		for _, s := range steps {
-			canon = append(canon, s.Op.ModelLine(s.Obs))
-		}
-		res.Count(strings.Join(canon, "\n"), nontrivial, "programs:"+po.name)
-		if i < 2 {
-			res.Sample(map[string]interface{}{"program": prog.Describe(steps, len(steps)-1)})
-		}
-		if po.post != nil {
-			po.post(steps, res, i)
-		}
-		if hook != nil {
+			var steps []*prog.Step
+			if po.next != nil {
+				steps, err = prog.RunAdaptive(w, a.Driver, setup, func(h []*prog.Step) *prog.Op { return po.next(g, i, h) })
+			} else if po.readonly {
+				var mut []string
+				steps, mut, err = runReadonly(w, a.Driver, cfg, setup, ops, body, start)
+				for _, m := range mut {
+					kind := strings.SplitN(strings.SplitN(m, " ", 3)[1], " ", 2)[0]
+					res.Fail(lib.Failure{Kind: "property", Signature: "readonly-mutation:" + kind, What: "storage changed although the gateway runs with --readonly",
+						Input: map[string]interface{}{"family": po.name, "program_index": i, "seed": a.Seed, "mutation": m}, Impl: m})
+				}
+			} else if po.restartBeforeLast > 0 {
+				all := append(ops, body...)
+				cut := len(all) - po.restartBeforeLast
+				if cut < 0 {
+					cut = 0
+				}
+				steps, err = prog.RunAdaptive(w, a.Driver, setup, func(h []*prog.Step) *prog.Op {
+					if len(h) >= len(all) {
+						return nil
+					}
+					if len(h) == cut {
+						for _, gwp := range w.Gws {
+							if e := gwp.Restart(); e != nil {
+								panic(e)
+							}
+						}
+					}
+					return all[len(h)]
+				})
+			} else {
+				steps, err = prog.Run(w, a.Driver, setup, append(ops, body...))
+			}
+			if err != nil {
+				return err
+			}
+			nontrivial := false
+			for j, s := range steps {
+				if j >= nSetup && !strings.HasPrefix(s.Impl, "code=NoSuchBucket") {
+					nontrivial = true
+				}
+				res.Histogram["op:"+s.Op.Kind]++
+				c := codeOfLine(s.Impl)
+				if c == "" {
+					c = "ok"
+				}
+				res.Histogram["outcome:"+c]++
+				if strings.HasPrefix(s.Op.Caller, "anon") {
+					res.Histogram["caller:anon"]++
+				} else {
+					res.Histogram["caller:"+s.Op.Caller]++
+				}
+			}
+			var canon []string
 			for _, s := range steps {
-				s.CompareEvents = true
+				canon = append(canon, s.Op.ModelLine(s.Obs))
 			}
-			prog.ReconcileLateEvents(steps)
-		}
-		for j, s := range steps {
-			class := s.Diff()
-			if class == "" {
-				continue
+			res.Count(strings.Join(canon, "\n"), nontrivial, "programs:"+po.name)
+			if i < 2 {
+				res.Sample(map[string]interface{}{"program": prog.Describe(steps, len(steps)-1)})
 			}
-			kind, sig := classify(s, class)
-			res.Fail(lib.Failure{Kind: kind, Signature: sig,
-				What:  fmt.Sprintf("step %d of program %d (%s): implementation and model differ: %s", j, i, po.name, class),
-				Input: map[string]interface{}{"family": po.name, "program_index": i, "seed": a.Seed, "steps": prog.Describe(steps, j)},
-				Impl:  s.Impl, Model: s.Model})
-			if strings.HasPrefix(class, "events-differ") {
-				continue // only the notification differs: the states are still in step
+			if po.post != nil {
+				po.post(steps, res, i)
 			}
-			break // states may have diverged; later steps are not comparable
+			if hook != nil {
+				for _, s := range steps {
+					s.CompareEvents = true
+				}
+				prog.ReconcileLateEvents(steps)
+			}
+			for j, s := range steps {
+				class := s.Diff()
+				if class == "" {
+					continue
+				}
+				kind, sig := classify(s, class)
+				res.Fail(lib.Failure{Kind: kind, Signature: sig,
+					What:  fmt.Sprintf("step %d of program %d (%s): implementation and model differ: %s", j, i, po.name, class),
+					Input: map[string]interface{}{"family": po.name, "program_index": i, "seed": a.Seed, "steps": prog.Describe(steps, j)},
+					Impl:  s.Impl, Model: s.Model})
+				if strings.HasPrefix(class, "events-differ") {
+					continue // only the notification differs: the states are still in step
+				}
+				break // states may have diverged; later steps are not comparable
+			}
 		}
 	}
 	return nil
